@@ -92,6 +92,8 @@ pub struct UpState {
     pub log: Mutex<Vec<Seen>>,
     udp_count: Mutex<HashMap<QKey, u32>>,
     stop: AtomicBool,
+    /// close a TCP connection on which nothing arrived for this many ms (0: after 150 s)
+    pub tcp_idle_close_ms: AtomicU64,
 }
 
 impl UpState {
@@ -278,7 +280,8 @@ impl Upstream {
 
 fn tcp_conn(mut stream: TcpStream, from: SocketAddr, st: Arc<UpState>) {
     let _ = stream.set_nonblocking(false);
-    let _ = stream.set_read_timeout(Some(Duration::from_secs(150)));
+    let idle = st.tcp_idle_close_ms.load(Ordering::Relaxed);
+    let _ = stream.set_read_timeout(Some(if idle == 0 { Duration::from_secs(150) } else { Duration::from_millis(idle) }));
     let writer = Arc::new(Mutex::new(stream.try_clone().unwrap()));
     loop {
         let mut lb = [0u8; 2];
